@@ -265,7 +265,39 @@ def deserialize_shape(ctx, f, an):
                     bad.append("hex source is %s" % short(cur.a[1][0], 200))
             else:
                 bad.append(short(cur, 160))
+    # nothing but the string deserialiser and the hex decoder rejects: an explicit Err is taken only when one of
+    # them failed, or on a length of the hex source that the decoder refuses anyway (!= 64 digits for 32 bytes)
+    import guards
+    from rules.typestate import const_int
+
+    def lib_failure(x):
+        return x.k == "call" and ((x.a[0].name == "from_hex" and (x.a[0].trait or "").endswith("FromHex")) or (x.a[0].name or "").startswith("deserialize"))
+    for bb, idx, e, node in ret_exprs(an):
+        for es in _alternatives(strip(e)):
+            if not (es.k == "agg" and es.a[0].endswith("Result::Err")):
+                continue
+            derived = any(lib_failure(x) for x in es.walk())
+            adm = [(0, guards.INF)]
+            for d, cond, allowed, alll in an.constraints_at(bb):
+                if cond.k == "discr" and allowed and allowed <= {"Err", "Break", "None"} and any(lib_failure(x) for x in cond.walk()):
+                    derived = True
+                r = guards.constraint_set(cond, allowed, const_int, strip)
+                if r is not None:
+                    q = strip(r[0])
+                    if q.k == "call" and q.a[0].name == "len" and q.a[1] and hex_source_ok(q.a[1][0]):
+                        adm = guards.intersect(adm, r[1])
+            if derived or not any(lo <= 64 <= hi for lo, hi in adm):
+                continue
+            bad.append("a rejection that is neither the string deserialiser's nor the hex decoder's (at %s): strings the specification accepts may be refused" % getattr(node, "sp", "?"))
     return good >= 1 and not bad, "; ".join(bad) or "from_hex not reached"
+
+
+def _alternatives(e, depth=0):
+    if e.k == "phi" and depth < 8:
+        for a in e.a[0]:
+            yield from _alternatives(strip(a), depth + 1)
+    else:
+        yield e
 
 
 def hex_source_ok(src):
